@@ -619,7 +619,13 @@ fn perfect_root(n: usize) -> usize {
 /// Note: `complete binary tree` here refers to a tree in which all left subtrees
 ///       are perfect, which is a stronger assumption than just "complete".
 fn complete_root(n: usize) -> usize {
-    perfect_root(n.wrapping_add(1).next_power_of_two().saturating_sub(1))
+    // The size of the smallest perfect tree with at least `n` nodes. For `n >= 2^(BITS-1)` this is
+    // `usize::MAX = 2^BITS - 1`, which `next_power_of_two` cannot express without overflowing.
+    let perfect_size = n
+        .checked_add(1)
+        .and_then(usize::checked_next_power_of_two)
+        .map_or(usize::MAX, |size_plus_one| size_plus_one.saturating_sub(1));
+    perfect_root(perfect_size)
 }
 
 /// Returns the parent index of a node at index `i` in a complete binary tree of size `n`.
@@ -699,8 +705,9 @@ fn is_branch(i: usize) -> bool {
 /// `j` is said to fall inside the tree if `j < n`.
 #[inline]
 fn is_leaf_index_in_tree(i: usize, n: usize) -> bool {
-    let j = leaf_index_to_tree_index(i);
-    is_tree_index_in_tree(j, n)
+    // A leaf index whose tree index does not fit into a `usize` cannot be inside any tree.
+    i.checked_mul(2)
+        .is_some_and(|j| is_tree_index_in_tree(j, n))
 }
 
 /// Returns if a tree index `i` is part of  tree.
@@ -714,5 +721,6 @@ fn is_tree_index_in_tree(i: usize, n: usize) -> bool {
 /// Returns if a tree of size `n` is perfect.
 #[inline]
 fn is_perfect(n: usize) -> bool {
-    n == 1 || n.next_power_of_two() == n.wrapping_add(1)
+    // `usize::MAX = 2^BITS - 1` is perfect; both sides are `None` for it.
+    n == 1 || n.checked_next_power_of_two() == n.checked_add(1)
 }
